@@ -403,7 +403,7 @@ int main() {
   std::string line;
   while (std::getline(std::cin, line)) {
     mj::Value reply;
-    alarm(static_cast<unsigned>(std::getenv("VERIF_CASE_TIMEOUT") ? std::atoi(std::getenv("VERIF_CASE_TIMEOUT")) : 20));
+    alarm(static_cast<unsigned>(std::getenv("VERIF_CASE_TIMEOUT") ? std::atoi(std::getenv("VERIF_CASE_TIMEOUT")) : 60));
     try {
       const mj::Value rq = mj::parse(line);
       const std::string cmd = rq.at("cmd").str();
